@@ -526,13 +526,22 @@ func (m *M) resultTarget(mod *big.Int) (*big.Int, string) {
 
 // window returns a value of one of the boundary windows of a 256-bit representation: next to 0, 2^255,
 // (p+1)/2, p, 2^256 - 2^192 (top limb all ones), 2^192, 2^128, 2^64.
-func (m *M) window() (*big.Int, string) {
+func (m *M) window() (*big.Int, string) { return m.windowKind(-1) }
+
+const nWindowKinds = 17
+
+// windowKind: kind < 0 draws the kind; otherwise that kind (the systematic walks go through all of them).
+func (m *M) windowKind(kind int) (*big.Int, string) {
 	d := big.NewInt(int64(m.rng.Intn(1 << 20)))
 	if m.rng.Intn(2) == 0 { // distances of every magnitude up to a limb and a bit: 2^1 .. 2^72, not only tiny ones
 		d = m.randBig(new(big.Int).Lsh(one, uint(1+m.rng.Intn(72))))
 	}
 	half := new(big.Int).Rsh(new(big.Int).Add(bigP, one), 1)
-	switch m.rng.Intn(17) {
+	k := m.rng.Intn(nWindowKinds)
+	if kind >= 0 {
+		k = kind % nWindowKinds
+	}
+	switch k {
 	case 14, 15: // p minus a power of two (any bit position), and a little around it
 		t := new(big.Int).Sub(bigP, new(big.Int).Lsh(one, uint(m.rng.Intn(256))))
 		if m.rng.Intn(3) == 0 {
@@ -607,11 +616,26 @@ func (m *M) window() (*big.Int, string) {
 // boundaryPoint returns a curve point one of whose coordinates -- as a canonical integer or in the
 // Montgomery domain (v * 2^256 mod p, what the limbs hold), or the Montgomery form of y^2 -- lies in a
 // boundary window.  Carry / final-subtraction slips in hand-written limb code live in such windows.
-func (m *M) boundaryPoint() (*big.Int, *big.Int, string) {
-	for {
-		w, wc := m.window()
+func (m *M) boundaryPoint() (*big.Int, *big.Int, string) { return m.boundaryPointAt(-1, -1) }
+
+// boundaryPointSys walks through every (window kind, coordinate role) pair in turn, one per call.
+func (m *M) boundaryPointSys() (*big.Int, *big.Int, string) {
+	m.bIdx++
+	return m.boundaryPointAt(m.bIdx%nWindowKinds, (m.bIdx/nWindowKinds)%5)
+}
+
+func (m *M) boundaryPointAt(kind, role int) (*big.Int, *big.Int, string) {
+	for try := 0; ; try++ {
+		if try > 400 { // no point of that kind / role (e.g. neither root exists in a narrow window): any
+			kind, role = -1, -1
+		}
+		w, wc := m.windowKind(kind)
 		w.Mod(w, bigP)
-		switch m.rng.Intn(5) {
+		r := m.rng.Intn(5)
+		if role >= 0 {
+			r = role
+		}
+		switch r {
 		case 0: // canonical x in the window
 			if y := curveY(w); y != nil {
 				return w, y, "x_canon_" + wc
